@@ -54,6 +54,9 @@ def call(entry, schema, text, variables, operation_name, world):
 def lookup(data, path):
     cur = data
     for p in path:
+        if cur is None:
+            # below a position that was nulled (non-null propagation): the path still names where the error arose
+            return ("nulled", None)
         if isinstance(cur, dict) and isinstance(p, str) and p in cur:
             cur = cur[p]
         elif isinstance(cur, list) and isinstance(p, int) and not isinstance(p, bool) and 0 <= p < len(cur):
@@ -206,9 +209,15 @@ def cases(draw):
     world = dict(base["world"], p_err=draw(st.sampled_from([0, 4, 9])))
     reqs = []
     for _ in range(draw(st.integers(3, 6))):
-        kind = draw(st.sampled_from(["valid", "valid", "truncate", "truncate", "token-mutation", "ast-mutation", "operation", "variables", "nan"]))
+        kind = draw(st.sampled_from(["valid", "valid", "truncate", "truncate", "token-mutation", "ast-mutation", "operation", "variables", "nan",
+                                     "respace", "respace-truncate"]))
         r = {"text": req0["text"], "variables": req0["variables"], "operation_name": req0["operation_name"], "world": world, "kind": kind}
-        if kind == "truncate":
+        if kind in ("respace", "respace-truncate"):
+            # the same tokens with drawn insignificant tokens: comments, CR / CRLF / LF, BOM, tabs, Unicode separators in comments
+            r["text"] = VC.respace(draw, req0["text"])
+            if kind == "respace-truncate":
+                r["text"] = r["text"][:draw(st.integers(0, len(r["text"])))]
+        elif kind == "truncate":
             r["text"] = req0["text"][:draw(st.integers(0, len(req0["text"])))]
         elif kind == "token-mutation":
             toks = R.ref_tokens(req0["text"]) or []
